@@ -44,7 +44,7 @@ typedef struct {
 #define NoDestOrderCount    10
 #define Reg3OrderCount      91
 #define CReg3OrderCount     8
-#define FReg3OrderCount     10
+#define FReg3OrderCount     12
 #define Reg3SwapOrderCount  49
 #define MixedOrderCount     8
 #define FReg4OrderCount     16
@@ -1905,6 +1905,7 @@ static void InitFields(void) {
     AddFReg3("FDIV", "FD", (T63 << 26) + (18 << 1), M_601 | M_6000, True);
     AddFReg3("FDIVS", "FDIVS", (T59 << 26) + (18 << 1), M_601 | M_6000, True);
     AddFReg3("FSUB", "FS", (T63 << 26) + (20 << 1), M_601 | M_6000, True);
+    AddFReg3("FSUBS", "FSUBS", (T59 << 26) + (20 << 1), M_601 | M_6000, True);
 
     /* A,S,B --> S A B */
 
